@@ -136,5 +136,6 @@ pub fn c19(a: &Args) {
             }
         }
     }
-    out.finish("every model of the C01 space with >= 2 features plus c2d inputs with true nodes: exported CNF counted by an independent DPLL counter over its declared variables, projection onto features compared with the truth table (each model extended exactly once), header vs content (distinct variables, max variable, clause lines); clause list compared exactly with the Lean model of the Tseitin transformation");
+    crate::cli_props::cli_pass(a, &mut out, &mut rng, &["to-cnf"]);
+    out.finish("(+ CLI pass: the rebuilt binary's `to-cnf` on a sample of the models, judged by the same oracles) every model of the C01 space with >= 2 features plus c2d inputs with true nodes: exported CNF counted by an independent DPLL counter over its declared variables, projection onto features compared with the truth table (each model extended exactly once), header vs content (distinct variables, max variable, clause lines); clause list compared exactly with the Lean model of the Tseitin transformation");
 }
